@@ -63,6 +63,12 @@ def run(ctx):
             ctx.add('C10', 'graph-edges-differ', '%s: missing %s extra %s' % (kind, sorted(missing)[:3], sorted(extra)[:3]), rp)
         else:
             agree += 1
+        # the inferred output schemas: a top-level key is optional exactly when its value carries an optional tag
+        if not wf.get('output_schema'):
+            for oid, want in (orc.get('req') or {}).items():
+                got = set((d.get('output_required') or {}).get(oid, []))
+                if got != want:
+                    ctx.add('C10', 'inferred-output-schema-requires-the-wrong-keys', '%s: output %s requires %s, the text implies %s' % (kind, oid, sorted(got), sorted(want)), rp)
     ctx.level = 'translation_validation'
     ctx.cov(programs=len(wfs), disagreements_checked=len(wfs) - agree, evaluations=len(wfs), distinct_nontrivial=len({json.dumps(vlib.strip_wf(w), sort_keys=True) for w in wfs}),
             verdicts_by_kind={k: {'accepted': v[0], 'rejected': v[1]} for k, v in sorted(byk.items())},
